@@ -236,8 +236,18 @@ func c15Op(c *WCase, res *WResult) {
 				}
 			}
 		}
-		for i := 0; i < out.N && out.Kinds == nil; i++ {
-			_ = i
+		// after the failed call the dependency works again: the object must not have kept anything wrong
+		if rd.Hit && out.Verdict == "" && what != "signer" {
+			rd.Armed = false
+			if h2 := bin.Hash(crypto.SHA256); h2 != nil && !bytes.Equal(h2, refHash) {
+				bad("wrong-digest-after-failed-read", "the %s whose read %d failed was handled, but the next Hash on the same object returned a wrong digest %x (want %x)", what, k, h2, refHash)
+			} else if what != "sign" {
+				if sig, err := bin.Sign(cs.Key.Priv, cs.Cert); err == nil {
+					if d, derr := embeddedSpcDigest(sig); derr == nil && !bytes.Equal(d, refHash) {
+						bad("wrong-digest-signed-after-failed-read", "after a failed %s the next Sign on the same object signed a wrong digest", what)
+					}
+				}
+			}
 		}
 		if out.Kinds == nil {
 			out.Kinds = []string{fmt.Sprintf("ReadAt×%d", out.N)}
@@ -245,6 +255,10 @@ func c15Op(c *WCase, res *WResult) {
 	case strings.HasPrefix(op, "write.") || strings.HasPrefix(op, "read."):
 		mem := afero.NewMemMapFs()
 		v := efivar.Efivar{Name: "VerifFault", GUID: efivar.PK.GUID, Attributes: 7}
+		if strings.HasSuffix(op, ".append") {
+			v.Attributes |= attributes.EFI_VARIABLE_APPEND_WRITE
+			op = strings.TrimSuffix(op, ".append")
+		}
 		value := bytes.Repeat([]byte{0xa5, 0x5a}, 50)
 		path := varPath(v.Name, v.GUID.Format())
 		if strings.HasPrefix(op, "read.") {
@@ -340,7 +354,7 @@ func checkC15(r *mon.Run) {
 	r.Exhaustive()
 	useFakeEfivarsDir()
 	var ops []string
-	ops = append(ops, "sign.pkcs7", "sign.authenticode", "sign.authenticode.reader", "var.sign", "write.object", "write.legacy", "write.signedupdate.fs", "write.signedupdate.signer", "read.object", "read.legacy")
+	ops = append(ops, "sign.pkcs7", "sign.authenticode", "sign.authenticode.reader", "var.sign", "write.object", "write.legacy", "write.object.append", "write.legacy.append", "write.signedupdate.fs", "write.signedupdate.signer", "read.object", "read.legacy")
 	imgs := c15Images
 	if !r.Thorough() {
 		imgs = []string{"test.pecoff", "signed", "HelloWorld"}
